@@ -1,4 +1,4 @@
-//@ unit u4_digests props C06 C02
+//@ unit u4_digests props C06 C02 C07
 // Unit U4: digests and signatures of synchronised rows (node.rs, edge.rs).
 // Prelude: stubs of external crates (assumed contracts listed in DESIGN.md section 7),
 // spec encodings (the wire format, written from the property's point of view: which
